@@ -50,6 +50,12 @@ def gen_cases(tier, seed, shard, nshards):
         n += 1
         if n % nshards == shard:
             yield hostile.case_of(f.mn, f.canon, f.form, f.operand, None, f.traits)
+    for f in hostile.lowercase_forms():
+        n += 1
+        if n % nshards == shard:
+            c = hostile.case_of(f.mn, f.canon, f.form, f.operand, f.expect, f.traits)
+            c["reject_ok"] = True
+            yield c
     # G3
     per = 1500 if thorough else 90
     for gi, (src, canon) in enumerate(R.all_mnemonics()):
@@ -71,6 +77,8 @@ def gen_cases(tier, seed, shard, nshards):
 
 
 def run_case(case, ctx):
+    if case.get("reject_ok"):
+        return asmjudge.judge_reject_or_exact(case, ctx)
     asmjudge.judge_c12(case, ctx, intent_known=not case.get("g3"))
 
 
